@@ -74,18 +74,8 @@ func (s *Store) Lookup(ctx context.Context, id string) (*workflow.Record, error)
 		return nil, workflow.ErrRecordNotFound
 	}
 
-	// Return a new pointer so modifications don't affect the store.
-	return &workflow.Record{
-		WorkflowName: record.WorkflowName,
-		ForeignID:    record.ForeignID,
-		RunID:        record.RunID,
-		RunState:     record.RunState,
-		Status:       record.Status,
-		Object:       record.Object,
-		CreatedAt:    record.CreatedAt,
-		UpdatedAt:    record.UpdatedAt,
-		Meta:         record.Meta,
-	}, nil
+	// Return an independent copy so modifications don't affect the store.
+	return copyRecord(record), nil
 }
 
 func (s *Store) Store(ctx context.Context, record *workflow.Record) error {
@@ -97,6 +87,9 @@ func (s *Store) Store(ctx context.Context, record *workflow.Record) error {
 	if err != nil {
 		return err
 	}
+
+	// Keep a private copy: the caller goes on using (and mutating) its record.
+	record = copyRecord(record)
 
 	// Add record to store
 	uk := uniqueKey(record.WorkflowName, record.ForeignID)
@@ -130,18 +123,8 @@ func (s *Store) Latest(ctx context.Context, workflowName, foreignID string) (*wo
 		return nil, workflow.ErrRecordNotFound
 	}
 
-	// Return a new pointer so modifications don't affect the store.
-	return &workflow.Record{
-		WorkflowName: record.WorkflowName,
-		ForeignID:    record.ForeignID,
-		RunID:        record.RunID,
-		RunState:     record.RunState,
-		Status:       record.Status,
-		Object:       record.Object,
-		CreatedAt:    record.CreatedAt,
-		UpdatedAt:    record.UpdatedAt,
-		Meta:         record.Meta,
-	}, nil
+	// Return an independent copy so modifications don't affect the store.
+	return copyRecord(record), nil
 }
 
 func (s *Store) ListOutboxEvents(
@@ -251,7 +234,7 @@ func (s *Store) List(
 			continue
 		}
 
-		entries = append(entries, *entry)
+		entries = append(entries, *copyRecord(entry))
 	}
 
 	if order == workflow.OrderTypeDescending {
@@ -288,6 +271,16 @@ func (s *Store) SnapshotOffset(workflowName, foreignID, runID string) int {
 
 	key := snapShotKey(workflowName, foreignID, runID)
 	return s.snapshotsOffsets[key]
+}
+
+// copyRecord returns a copy that shares nothing with the original, including the bytes of the object.
+func copyRecord(record *workflow.Record) *workflow.Record {
+	c := *record
+	if record.Object != nil {
+		c.Object = append([]byte{}, record.Object...)
+	}
+
+	return &c
 }
 
 func snapShotKey(workflowName, foreignID, runID string) string {
